@@ -224,6 +224,8 @@ def _profiles(name, tier):
     out.append(dict(id="labels", n=3, m=4, t=2, present=opt, grouped=False, uni=False, salt=1))
     out.append(dict(id="bare", n=3, m=4, t=2, present=(), grouped=False, uni=False, salt=2))
     out.append(dict(id="partial", n=2, m=3, t=1, present=half, grouped=False, uni=True, salt=3))
+    # more than ten unlabelled entities along an axis and a single trait: default names need two digits
+    out.append(dict(id="bare-12", n=12, m=3, t=1, present=(), grouped=False, uni=False, salt=9))
     if tier in ("thorough", "wide"):
         out.append(dict(id="rich-small", n=2, m=3, t=1, present=opt, grouped=True, uni=False, salt=4))
     if tier == "wide":
